@@ -24,26 +24,106 @@ def _stationary_point(cx, fun_scalar, n, stem):
     return p
 
 
-def install(cx, record=None):
-    """patch pyerrors.fits for symbolic execution; `record` collects what the code hands to the libraries"""
+def _install_failing_minimisers(cx, rec):
+    """concrete replay of a `minfail` job: the REAL minimisers, driven into their documented failure mode (iteration / call limit of one), so that
+    what the library does with `success == False` resp. ODR's `info == 4` is observed on the real code path"""
+    import scipy.optimize
+    import scipy.odr
+    import iminuit
+    import pyerrors.fits as F
+    fail_min = [int(cx.integer('min_status%d' % k, 0, 1)) <= 0 for k in range(4)]
+    fail_odr = int(cx.integer('odr_info', 4, 5)) > 3
+    count = [0]
+
+    def note(ok):
+        rec['min_failed'] = not ok          # the last minimisation is the one whose point the fit uses (an earlier one only provides the start)
+
+    def wrap(real, limit):
+        def f(*a, **kw):
+            k = count[0]
+            count[0] += 1
+            if fail_min[min(k, 3)]:
+                kw = dict(kw, **limit(kw))
+            out = real(*a, **kw)
+            note(bool(out.success))
+            return out
+        return f
+    sh = contracts.scipy_shim()
+    sh.optimize = types.SimpleNamespace(least_squares=wrap(scipy.optimize.least_squares, lambda kw: dict(max_nfev=1)),
+                                        minimize=wrap(scipy.optimize.minimize, lambda kw: dict(options=dict(kw.get('options') or {}, maxiter=1))))
+    cx.patch(F, 'scipy', sh)
+    cx.patch(F, 'iminuit', types.SimpleNamespace(minimize=wrap(iminuit.minimize, lambda kw: dict(options=dict(kw.get('options') or {}, maxfun=1)))))
+
+    class ODR(scipy.odr.ODR):
+        def __init__(self, *a, **kw):
+            if fail_odr:
+                kw = dict(kw, maxit=1)
+            super().__init__(*a, **kw)
+
+        def run(self):
+            out = super().run()
+            note(out.info <= 3)
+            return out
+    cx.patch(F, 'ODR', ODR)
+
+
+def guarded_fit(cx, rec, call):
+    """runs the fit; with the `minfail` contract the minimiser may report that it did not converge: then the library must raise, never return a result.
+    Returns the fit result, or None when the path ends here."""
+    try:
+        out = call()
+    except core.Realize:
+        raise
+    except Exception as e:
+        if rec.get('min_failed'):
+            cx.ok('minimiser failure reported as an exception')
+            return None
+        raise
+    if rec.get('min_failed'):
+        cx.fail('fit returned a result although the minimiser reported that it did not converge', 'minimiser outcome: failure')
+        return None
+    return out
+
+
+def install(cx, record=None, minfail=False):
+    """patch pyerrors.fits for symbolic execution; `record` collects what the code hands to the libraries.
+    minfail: the minimiser contract includes its failure mode - it may return success=False (ODR: info > 3) with an arbitrary point"""
     import pyerrors.fits as F
     lib.sym_env(cx, *MODS)
-    if cx.mode != 'sym':
-        return
     rec = record if record is not None else {}
+    if cx.mode != 'sym':
+        if minfail:
+            _install_failing_minimisers(cx, rec)
+        return rec
     rec.setdefault('minimise', [])
+    ncall = [0]
+
+    def outcome():
+        """True: converged (stationary point); False: the library reports failure and the returned point is arbitrary"""
+        if not minfail:
+            return True
+        k = ncall[0]
+        ncall[0] += 1
+        ok = bool(cx.integer('min_status%d' % k, 0, 1) > 0)
+        rec['min_failed'] = not ok          # the last minimisation is the one whose point the fit uses (an earlier one only provides the start)
+        return ok
+
+    def arbitrary(n, stem):
+        return np.array([SV(cx.newvar(stem)) for _ in range(n)], dtype=object)
 
     def least_squares(resfn, x0, **kw):
         n = len(x0)
-        p = _stationary_point(cx, lambda q: sum(r * r for r in np.asarray(resfn(q), dtype=object).ravel()), n, 'fitp')
+        ok = outcome()
+        p = _stationary_point(cx, lambda q: sum(r * r for r in np.asarray(resfn(q), dtype=object).ravel()), n, 'fitp') if ok else arbitrary(n, 'fitp')
         rec['minimise'].append(dict(kind='least_squares', method=kw.get('method'), fun=lambda q: sum(r * r for r in np.asarray(resfn(q), dtype=object).ravel()), x=p))
-        return _Res(x=p, fun=np.asarray(resfn(p), dtype=object), success=True, message='contract stub: stationary point', nfev=0)
+        return _Res(x=p, fun=np.asarray(resfn(p), dtype=object), success=ok, message='contract stub: stationary point' if ok else 'contract stub: not converged', nfev=0)
 
     def minimize(fun, x0, **kw):
         n = len(x0)
-        p = _stationary_point(cx, fun, n, 'fitp')
+        ok = outcome()
+        p = _stationary_point(cx, fun, n, 'fitp') if ok else arbitrary(n, 'fitp')
         rec['minimise'].append(dict(kind='minimize', method=kw.get('method'), fun=fun, x=p))
-        return _Res(x=p, fun=fun(p), success=True, message='contract stub: stationary point', nfev=0, nit=0)
+        return _Res(x=p, fun=fun(p), success=ok, message='contract stub: stationary point' if ok else 'contract stub: not converged', nfev=0, nit=0)
 
     def cdf(name):
         def f(x, *a):
@@ -85,8 +165,16 @@ def install(cx, record=None):
                 model = np.asarray(self.model.f(beta, xp), dtype=object)
                 return sum(((yy - mm) / sy) * ((yy - mm) / sy) for yy, mm, sy in zip(d.y, model.ravel(), d.sy)) + \
                     sum(((a - b) / s) * ((a - b) / s) for a, b, s in zip(x_f.ravel(), xp.ravel(), np.asarray(d.sx, dtype=object).ravel()))
-            q = _stationary_point(cx, chisq, n + m, 'odr')
-            return _Res(beta=q[:n], xplus=np.asarray(q[n:], dtype=object).reshape(x_f.shape), res_var=0.0, stopreason=['contract stub'], info=1)
+            info = 1
+            if minfail:
+                # ODRPACK stop codes: 1-3 convergence, 4 iteration limit reached, >= 5 questionable results / fatal errors
+                info = cx.integer('odr_info', 1, 5)
+                ok = bool(info <= 3)
+                rec['min_failed'] = not ok
+                q = _stationary_point(cx, chisq, n + m, 'odr') if ok else arbitrary(n + m, 'odr')
+            else:
+                q = _stationary_point(cx, chisq, n + m, 'odr')
+            return _Res(beta=q[:n], xplus=np.asarray(q[n:], dtype=object).reshape(x_f.shape), res_var=0.0, stopreason=['contract stub'], info=info)
     cx.patch(F, 'ODR', ODR)
     cx.patch(F, 'Model', Model)
     cx.patch(F, 'RealData', RealData)
